@@ -92,10 +92,14 @@ def lex(text):
                 continue
             if c == '@' or c == '!':
                 j = i + 1
+                if j < n and ord(line[j]) > 127 and (line[j].isalnum() or line[j] == '_'):
+                    raise OutOfDomain('non-ASCII identifier character')
                 if j < n and is_ident_start(line[j]):
                     k = j
                     while k < n and is_ident_char(line[k]):
                         k += 1
+                    if k < n and ord(line[k]) > 127 and (line[k].isalnum() or line[k] == '_'):
+                        raise OutOfDomain('non-ASCII identifier character')
                     name = line[j:k]
                     if name in KEYWORDS:
                         raise RefLexError('flavoured keyword', ln, i)
